@@ -20,6 +20,7 @@ def check(tree, rep, tier='quick', seed=0):
     core = get_core(tree)
     R.k23_filler(core, rep)
     R.k23f_filling_keeps_no_state(core, rep)
+    R.k11e_parser_options(core, rep)     # the solution text reaches the filler uncut
     cat = get_catalogue(tree)
     n = 0
     for y in cat.years:
